@@ -97,12 +97,29 @@ def reshape_failure_cases(
         and "failure_case" in failure_cases.columns
     ):
         reshaped_failure_cases = failure_cases
-    elif is_table(failure_cases) and is_multiindex(failure_cases.index):
+    elif (
+        isinstance(failure_cases, pd.DataFrame)
+        and is_multiindex(failure_cases.index)
+    ):
         reshaped_failure_cases = _unstack_failure_cases(
             failure_cases,
             _multiindex_to_frame(failure_cases)
             .apply(tuple, axis=1)
             .astype(str),
+        )
+    elif is_table(failure_cases) and is_multiindex(failure_cases.index):
+        # pandas-like frames (modin, pyspark.pandas)
+        reshaped_failure_cases = (
+            failure_cases.rename_axis("column", axis=1)  # type: ignore[call-overload]
+            .assign(
+                index=lambda df: (
+                    df.index.to_frame().apply(tuple, axis=1).astype(str)
+                )
+            )
+            .set_index("index", drop=True)
+            .unstack()
+            .rename("failure_case")
+            .reset_index()
         )
     elif is_field(failure_cases) and is_multiindex(failure_cases.index):
         reshaped_failure_cases = (
@@ -115,10 +132,14 @@ def reshape_failure_cases(
             )[["failure_case", "index"]]
             .reset_index(drop=True)
         )
-    elif is_table(failure_cases):
+    elif isinstance(failure_cases, pd.DataFrame):
         reshaped_failure_cases = _unstack_failure_cases(
             failure_cases, failure_cases.index
         )
+    elif is_table(failure_cases):
+        # pandas-like frames (modin, pyspark.pandas)
+        reshaped_failure_cases = failure_cases.unstack().reset_index()
+        reshaped_failure_cases.columns = ["column", "index", "failure_case"]  # type: ignore[call-overload,assignment]  # noqa
     elif is_field(failure_cases):
         reshaped_failure_cases = failure_cases.rename("failure_case")  # type: ignore[call-overload]
         reshaped_failure_cases.index.name = "index"
